@@ -604,7 +604,7 @@ def run_build_case(cls, b, guards, dspec):
             verdict = 'accepted-outside-domain'
         else:
             for k in d:
-                if obj.__dict__.get('_' + k, MISSING) is not d[k]:
+                if k in guards and obj.__dict__.get('_' + k, MISSING) is not d[k]:
                     verdict = 'not-stored-unchanged'
                     first_bad = k
             if obj.__dict__.get('_hyperparams', MISSING) is not d:
@@ -772,7 +772,8 @@ def main():
                 dflt = {k[1:]: v for k, v in cls().__dict__.items() if k.startswith('_')}
             except Exception:  # noqa: BLE001
                 dflt = {}
-            for dspec in build_dicts(b, gmap, hlib.QUICK, dflt):
+            # a dictionary holding only a key the class does not know must simply be accepted (no KeyError)
+            for dspec in build_dicts(b, gmap, hlib.QUICK, dflt) + [[('zz_not_a_hyperparameter', {'k': 'int', 'v': '1'})]]:
                 try:
                     res['builds'].append(run_build_case(cls, b, gmap, dspec))
                 except Exception as ex:  # noqa: BLE001
